@@ -230,6 +230,8 @@ class World:
     # ---- tree edits
     def write(self, rel, content, keep=False):
         path = self.p(rel)
+        if os.path.isdir(path) or os.path.isfile(os.path.dirname(path)):
+            return
         st = os.stat(path) if keep and os.path.exists(path) else None
         os.makedirs(os.path.dirname(path), exist_ok=True)
         with open(path, "wb") as f:
@@ -460,7 +462,7 @@ def fam_creator(run, sch):
                 for k in sub:
                     vals = CREATOR[keys[k]]
                     opts += [keys[k], vals[(vi + k) % len(vals)]]
-                w = World(run, sch, cid, {"A/a.txt": "a", "b.txt": "b"})
+                w = World(run, sch, cid, {"A/a.txt": "a", "b.txt": "b" * 1234})
                 w.create("A", opts, fmts=["md5"])
                 w.create("", opts, fmts=["md5", "c4"])
                 w.sf(["A/a.txt"], opts, fmts=["md5"])
@@ -487,6 +489,7 @@ def fam_sf(run, sch):
         ("levels", ["L1/L2/L3", "L1/L2", "L1"], ["L1/L2/L3/clip.bin"]),
         ("levels", ["L1/L2/L3", "L1"], ["L1/L2/L3/clip.bin", "L1/L2/two.bin"]),
         ("lookalike", ["ascmhl_x"], ["ascmhl_x/f.txt", "sub"]),
+        ("prefix", ["Clips"], ["Clips/x.mov", "Clips", "Clips/sub/z.mov", "Clips/sub"]),
     ]
     fsets = [["md5"], ["xxh64", "c4", "md5"]] if run.tier != "thorough" else fmt_orders("quick")
     for ti, (tree, nested, sel) in enumerate(table):
@@ -924,7 +927,7 @@ def fam_crash(run, sch):
 
 def fam_random(run, sch):
     """seeded random histories: every command is followed by the validation of everything that changed"""
-    count, length = (220, 14) if run.tier == "thorough" else (14, 9)
+    count, length = (400, 14) if run.tier == "thorough" else (14, 9)
     zones = [z for z in ZONES_QUICK + ZONES_MORE]
     old = os.environ.get("TZ")
     for hi in range(count):
@@ -995,7 +998,7 @@ def fam_random(run, sch):
                     src = rnd.choice(files + dirs)
                     w.mv(src, os.path.join(os.path.dirname(src), rnd.choice(NAMEPOOL)))
                 elif op == "add":
-                    w.write(os.path.join(rnd.choice([""] + dirs), rnd.choice(NAMEPOOL)), rnd.choice(["", "x", "new content"]))
+                    w.write(os.path.join(rnd.choice([""] + dirs), rnd.choice(NAMEPOOL)), rnd.choice(["", "x", "new content", "k" * 1500]))
                 elif op == "mkdir":
                     d = w.p(os.path.join(rnd.choice([""] + dirs), rnd.choice(NAMEPOOL) + "_d"))
                     if not os.path.lexists(d):
@@ -1045,12 +1048,14 @@ def main():
         bound="families: fresh (10 trees x <= 6 nestings (<= 3 levels) x format request orders incl. repeats and non-schema order x "
         "{plain,-n,-i,-ii,-dr,creator} x root spelled abs / trailing slash / relative / '.' / '..'), rootname (XML-special, NFD, U+2028, "
         "leading dash in root and nested root names), creator (13 (quick) or all 64 (thorough) subsets of the six creator options, 2-3 "
-        "value rows, e-mail always local@domain.tld), sf (14 selections x reference-only parents 1..3 levels x fresh/prior/relative cwd), "
+        "value rows, e-mail always local@domain.tld), sf (15 selections x reference-only parents 1..3 levels x fresh/prior/relative cwd), "
         "history (15 scripts: >= 12 generations with rotating formats, exit 10/11/30/31/32 generations, same-size+mtime edits, file / "
         "folder / nested-root renames with -dr, late and removed children, empty folders, symlinks, files at 1 MiB +-1, 12 accumulated "
         "ignore patterns incl. negation and -ii forms), tz (8 / 22 zones incl. POSIX DST strings and 30/45-minute offsets x 12-14 mtimes "
-        "around DST switches), crash (5 commands killed at one event per class {open, first/middle/last write (torn), rename, mkdir} x {manifest, directory file} (quick) / at every (thorough) file-system write event incl. torn "
-        "writes, then create x2 + flatten), random (14 x 9 (quick) / 220 x 14 (thorough) seeded steps)",
+        "around DST switches; all UTC offsets whole minutes), crash (5 commands killed at one event per class {open, first / middle / "
+        "last write (torn), rename, mkdir} x {manifest, directory file} (quick) or at every file-system write event (thorough), then "
+        "create + flatten), random (14 x 9 (quick) / 400 x 14 (thorough) seeded steps). Not enumerated: names / option values with "
+        "characters XML cannot carry (the commands abort before writing), UTC offsets with a seconds part (--case probe/...)",
     )
     sch = Schemas()
     fams = [fam_fresh, fam_rootname, fam_creator, fam_sf, fam_history, fam_tz, fam_crash, fam_random, fam_probe]
